@@ -367,6 +367,8 @@ def run(ctx):
     stats = {"identical": 0, "semantic": 0, "preamble": 0}
     undecided = []
     for name in sorted(set(tn) & set(ln)):
+        if is_helper(tmod, name) and is_helper(lmod, name):
+            continue            # a helper both modules have: compared through the API functions that call it
         tfn, lfn = tmod.func(name), lmod.func(name)
         ctx.saw(tmod, tfn); ctx.saw(lmod, lfn)
         where = "%s / %s" % (core.loc(tmod, tfn), core.loc(lmod, lfn))
@@ -433,12 +435,11 @@ def run(ctx):
                 e3err = str(e)
         # not evaluable by E3: classify the structural difference
         if d.tokens and not d.shapes:
-            ctx.fail("C14:identical:%s" % name,
-                     "same shape, different tokens (tools vs laue): %s" % d.tokens[:4], where)
+            undecided.append("siblings %s have the same shape but different tokens %s and cannot be evaluated: %s" % (name, d.tokens[:4], e3err))
         elif d.equal:
-            ctx.fail("C14:identical:%s" % name,
-                     "tools carries tau factors at %s but the pair cannot be evaluated (%s)"
-                     % ([s[1] for s in d.tau_sites][:4], e3err), where)
+            # same operations in both modules, but the pair is scale-sensitive and cannot be evaluated: nothing is decided
+            undecided.append("siblings %s are scale-sensitive (tau factors at %s) and cannot be evaluated: %s"
+                             % (name, [s_[1] for s_ in d.tau_sites][:4], e3err))
         else:
             undecided.append("siblings %s diverged structurally and cannot be compared: %s ; E3: %s" % (name, d.shapes[:2], e3err))
     ctx.extra["pair_verdicts"] = stats
